@@ -98,6 +98,12 @@ def job_nonutf8(res, rng, w, home):
     os.mkdir(os.path.join(base, b"plain"))
     os.symlink(b"../" + pa, os.path.join(base, b"plain", b"ln"))       # a link to the first of the two
     entries += [b"plain", b"plain/ln"]
+    # and a link that itself lives inside one of them, to a directory nothing else leads to
+    os.makedirs(os.path.join(base, b"far", b"deep"))
+    open(os.path.join(base, b"far", b"deep", b"leaf"), "wb").close()
+    os.rename(os.path.join(base, b"far"), os.path.join(w.encode(), b"far-away"))
+    os.symlink(os.path.join(w.encode(), b"far-away"), os.path.join(base, pb, b"out"))
+    entries += [pb + b"/out", pb + b"/out/deep", pb + b"/out/deep/leaf"]
     for mode in ("", " dfs", " bfs"):
         query = "path from nu symlinks%s into list" % mode
         r = runner.run([query], cwd=w, home=home)
